@@ -258,6 +258,7 @@ theorem stage1_eq (hash : Bytes → Nat) (sat : Nat → Bytes → Bool) (noRoute
     (hstd : ∀ g ∈ script, g.method ∈ stdMethods) (req : Req) (hp : req.path.head? = some '/')
     (hmeth : '/' ∉ req.method)
     (hinj : InjOn hash ((req.method ++ req.path) :: R.map fun r => r.method ++ r.text))
+    (hOw : dReplaced1 sat R req.method (cutAny req.path) = false)
     (cr : CRoute) (h : (rcBuild hash script).lookupStatic hash req.method req.path = some cr) :
     servedStatic cr req = serve sat (build noRoute script) req := by
   have hinjR : InjOn hash (R.map fun r => r.method ++ r.text) := by
@@ -336,8 +337,7 @@ theorem stage1_eq (hash : Bytes → Nat) (sat : Nat → Bytes → Bool) (noRoute
             rw [if_pos ⟨by rw [C_static_iff c hnc]; exact hcs, by rw [hcm, hctx]⟩]
           rw [hans] at this; simp at this
       exact better_static_dyn _ _ _ _ hρs hcns hρmatch hcmatch
-  have hlook := lemma_lookupM sat noRoute script R hRs hN hstd req.method req.path hp
-    (by simp [dShadow1, hsh]) (by simp [dCfall1, hsh])
+  have hlook := lemma_lookupM sat noRoute script R hRs hN hstd req.method req.path hp hOw
   rw [href] at hlook
   simp only [Option.map_some, hρrm, Option.getD_some] at hlook
   rw [lemma_serve_lookup, hlook]
